@@ -1,6 +1,6 @@
 # Sizing and claim for C05 (buffer histories)
 SPEC = {
-    "quick": {"rc_cases": 6000, "rc_procs": 8},
+    "quick": {"rc_cases": 60000, "rc_procs": 12},
     "thorough": {"rc_cases": 120000, "rc_procs": 12, "fuzz_secs": 180, "fuzz_workers": 8},
     "assumptions": [
         "the allocation registry (harness/common/alloc_track.h) sees every operator new/delete of the process; blocks are attributed to the library when allocated inside a library call",
